@@ -26,6 +26,21 @@ MUTS = [
  ("privkey-len-lt", "vls-core/src/node.rs", "if key_path_len.is_some() && derivation_path.len() != key_path_len.unwrap() {", "if key_path_len.is_some() && derivation_path.len() < key_path_len.unwrap() {"),
  ("native-address-empty-path", "vls-core/src/node.rs", "    fn get_native_address(&self, child_path: &DerivationPath) -> Result<Address, Status> {\n        if child_path.len() == 0 {", "    fn get_native_address(&self, child_path: &DerivationPath) -> Result<Address, Status> {\n        if child_path.len() == 9 {"),
  ("payee-script-variant", "vls-core/src/node.rs", "self.get_state().allowlist.contains(&Allowable::Payee(payee))", "!self.get_state().allowlist.contains(&Allowable::Payee(payee))"),
+ # second half of the round: channel.rs entry points, handler.rs sweep helpers, allowlist maintenance
+ ("delayed-uses-htlc-key", "vls-core/src/channel.rs", "            &per_commitment_point,\n            &self.keys.delayed_payment_base_key,", "            &per_commitment_point,\n            &self.keys.htlc_base_key,"),
+ ("delayed-skips-validator-order", "vls-core/src/channel.rs", "        let per_commitment_point = self.get_per_commitment_point(commitment_number)?;\n\n        self.validator().validate_delayed_sweep(", "        let per_commitment_point = self.get_per_commitment_point(commitment_number + 1)?;\n\n        self.validator().validate_delayed_sweep("),
+ ("justice-validates-as-delayed", "vls-core/src/channel.rs", "        self.validator().validate_justice_sweep(", "        self.validator().validate_delayed_sweep("),
+ ("cphtlc-input-check-gt", "vls-core/src/channel.rs", "        if input >= tx.input.len() {\n            return Err(invalid_argument(format!(\n                \"sign_counterparty_htlc_sweep", "        if input > tx.input.len() {\n            return Err(invalid_argument(format!(\n                \"sign_counterparty_htlc_sweep"),
+ ("sweep-sighash-amount", "vls-core/src/channel.rs", "                    Amount::from_sat(htlc_amount_sat),\n                    EcdsaSighashType::All,", "                    Amount::from_sat(htlc_amount_sat + 1),\n                    EcdsaSighashType::All,"),
+ ("htlc-tx-skip-validate", "vls-core/src/channel.rs", "                &self.get_chain_state(),\n                is_counterparty,\n                &htlc,\n                feerate_per_kw,", "                &self.get_chain_state(),\n                !is_counterparty,\n                &htlc,\n                feerate_per_kw,"),
+ ("holder-htlc-is-counterparty", "vls-core/src/channel.rs", "            false, // is_counterparty", "            true, // is_counterparty"),
+ ("htlc-tx-signs-with-delayed-key", "vls-core/src/channel.rs", "derive_private_key(&self.secp_ctx, &per_commitment_point, &self.keys.htlc_base_key);", "derive_private_key(&self.secp_ctx, &per_commitment_point, &self.keys.delayed_payment_base_key);"),
+ ("handler-amount-input0", "vls-protocol-signer/src/handler.rs", "    let htlc_amount =\n        psbt.inputs[input].witness_utxo.as_ref().expect(\"will only spend witness UTXOs\").value;\n    let wallet_paths = extract_psbt_output_paths(&psbt);\n    let sig = node.with_channel(channel_id, |chan| {\n        chan.sign_delayed_sweep(", "    let htlc_amount =\n        psbt.inputs[0].witness_utxo.as_ref().expect(\"will only spend witness UTXOs\").value;\n    let wallet_paths = extract_psbt_output_paths(&psbt);\n    let sig = node.with_channel(channel_id, |chan| {\n        chan.sign_delayed_sweep("),
+ ("handler-penalty-path1", "vls-protocol-signer/src/handler.rs", "            &revocation_secret,\n            &redeemscript,\n            htlc_amount.to_sat(),\n            &wallet_paths[0],", "            &revocation_secret,\n            &redeemscript,\n            htlc_amount.to_sat(),\n            &wallet_paths[1],"),
+ ("handler-remote-htlc-calls-delayed", "vls-protocol-signer/src/handler.rs", "        chan.sign_counterparty_htlc_sweep(", "        chan.sign_justice_sweep("),
+ ("allowlist-remove-persist-first", "vls-core/src/node.rs", "        for allowable in allowables {\n            state.allowlist.remove(&allowable);\n        }\n        self.update_allowlist(&state)?;", "        self.update_allowlist(&state)?;\n        for allowable in allowables {\n            state.allowlist.remove(&allowable);\n        }"),
+ ("allowlist-set-no-clear", "vls-core/src/node.rs", "        state.allowlist.clear();\n", "        \n"),
+ ("allowlist-add-no-persist", "vls-core/src/node.rs", "            state.allowlist.insert(allowable);\n        }\n        self.update_allowlist(&state)?;\n        Ok(())\n    }\n\n    /// Replace", "            state.allowlist.insert(allowable);\n        }\n        Ok(())\n    }\n\n    /// Replace"),
 ]
 def sh(cmd, cwd): return subprocess.run(cmd, shell=True, cwd=cwd, capture_output=True, text=True)
 res = {}
@@ -40,10 +55,14 @@ for name, rel, old, new in MUTS:
     g = sh("python3 translate/gen.py --repo %s --out lean/VlsModel/Gen" % W, V)
     if g.returncode != 0:
         res[name] = "translator failed for all: " + (g.stderr.strip().splitlines() or ["?"])[-1][:200]; print(name, res[name]); continue
-    nt = sh("grep -l 'NOT TRANSLATED' lean/VlsModel/Gen/FnApproverC08.lean lean/VlsModel/Gen/FnOnchainWrap.lean lean/VlsModel/Gen/FnNodeOnchain.lean lean/VlsModel/Gen/FnNodeWallet.lean", V).stdout.split()
+    nt = sh("grep -l 'NOT TRANSLATED' lean/VlsModel/Gen/FnApproverC08.lean lean/VlsModel/Gen/FnOnchainWrap.lean lean/VlsModel/Gen/FnNodeOnchain.lean lean/VlsModel/Gen/FnNodeWallet.lean lean/VlsModel/Gen/FnChannelSweep.lean lean/VlsModel/Gen/FnHandlerSweep.lean lean/VlsModel/Gen/FnNodeAllowlist.lean", V).stdout.split()
     b = sh("timeout 900 lake build VlsModel.Props.C08Fn VlsModel.Props.C09Fn 2>&1 | grep -E '^error: VlsModel' | head -3", os.path.join(V, "lean"))
     errs = [re.sub(r"^error: ", "", l)[:160] for l in b.stdout.strip().splitlines()]
     res[name] = ("BROKEN " + " | ".join(errs) + (" [NOT TRANSLATED in %s]" % ",".join(os.path.basename(x) for x in nt) if nt else "")) if errs else "NOT DETECTED by the ties"
     print(name, "->", res[name], flush=True)
 sh("git checkout -q -- .", W); sh("git checkout -q -- . && git clean -qfd lean/VlsModel/Gen", V)
+old = {}
+try: old = json.load(open(os.path.join(os.path.dirname(os.path.abspath(__file__)), "c0809_r9_muts_result.json")))
+except Exception: pass
+old.update(res); res = old
 json.dump(res, open(os.path.join(os.path.dirname(os.path.abspath(__file__)), "c0809_r9_muts_result.json"), "w"), indent=1)
